@@ -33,15 +33,9 @@ class Amorph(Indicator):
     @property
     def settings(self) -> dict:
         """Returns a dict format of how this indicator can be generated"""
-        output = {"analysis": self._analysis_method.__name__}
-
-        for name, value in self.__dict__.items():
-            if name == "candles":
-                continue
-            if name == "timeframe_fill" and self.timeframe is None:
-                continue
-            if not name.startswith("_") and value:
-                output[name] = deepcopy(value)
+        output = super().settings
+        output.pop("indicator", None)
+        output = {"analysis": self._analysis_method.__name__, **output}
 
         if self._analysis_kwargs:
             output["args"] = deepcopy(self._analysis_kwargs)
